@@ -61,6 +61,22 @@ def check_model(mod, acc, want='C02'):
                         'diff': repr(d)[:1200], 'text': text})
         else:
             acc.count('diffs_of_other_property')
+    if want == 'C08':
+        import re as _re
+
+        def names(ds):
+            for d in ds:
+                if d['kind'] == 'ns':
+                    yield from names(d['content'])
+                elif d['kind'] in ('class', 'func', 'decl'):
+                    yield d['name']
+                    for k in ('methods', 'statics'):
+                        for m in d.get(k, []):
+                            yield m['name']
+        for nm in names(act):
+            if not _re.match(r'^[A-Za-z_]\w*$', nm):
+                out.append({'what': 'instantiated name is not an identifier', 'name': nm, 'text': text})
+                break
     for name, n in monitors.REC.evaluations.items():
         acc.count('contract:' + name, n)
     if want == 'C02':
